@@ -569,6 +569,24 @@ func checkFormatterWithholdsNothing(c *Ctx, m *cfgModel, fmtFns, compFns map[*ty
 	seenConstruct := map[string]int{}
 	for f := range g.writers {
 		fd := m.decls[f]
+		// what follows an if in its statement list: `if c { write A; continue }; write B` is a choice between two
+		// spellings of the same element, not a decision whether it is written
+		rest := map[*ast.IfStmt][]ast.Stmt{}
+		ast.Inspect(fd.Body, func(n ast.Node) bool {
+			var list []ast.Stmt
+			switch x := n.(type) {
+			case *ast.BlockStmt:
+				list = x.List
+			case *ast.CaseClause:
+				list = x.Body
+			}
+			for i, st := range list {
+				if is, ok := st.(*ast.IfStmt); ok {
+					rest[is] = list[i+1:]
+				}
+			}
+			return true
+		})
 		ast.Inspect(fd.Body, func(n ast.Node) bool {
 			if _, ok := n.(*ast.FuncLit); ok {
 				return false
@@ -576,6 +594,9 @@ func checkFormatterWithholdsNothing(c *Ctx, m *cfgModel, fmtFns, compFns map[*ty
 			is, ok := n.(*ast.IfStmt)
 			if !ok {
 				return true
+			}
+			if is.Else == nil && endsInSkip(is.Body) && g.emitsAlways(is.Body) && g.emitsAlways(&ast.BlockStmt{List: rest[is]}) {
+				return true // both alternatives write
 			}
 			bodySome := g.emitsSome(is.Body)
 			elseSome := is.Else != nil && g.emitsSome(is.Else)
